@@ -6,7 +6,7 @@ From OSS Require Gen.Consts.
 Open Scope N_scope.
 
 Definition us_ok := 0. Definition us_cipher := 1. Definition us_read_address := 4. Definition us_address_invalid := 5.
-Definition us_address_private := 6. Definition us_resolve := 10. Definition us_pack := 11.
+Definition us_address_private := 6. Definition us_resolve := 10. Definition us_pack := 11. Definition us_write := 12.
 
 Record assoc := { as_sock : N; as_key : skey; as_id : bytes }.
 Record ustate := {
@@ -22,7 +22,8 @@ Inductive uev :=
 
 Record uenv := {
   ue_validate : bool;                    (* default target policy in force *)
-  ue_resolve : bytes -> option ip        (* net.ResolveUDPAddr on a domain name: oracle *)
+  ue_resolve : bytes -> option ip;       (* net.ResolveUDPAddr on a domain name: oracle *)
+  ue_sendable : ip -> N -> bool          (* OS oracle: sendto this address and port succeeds (port 0: EINVAL) *)
 }.
 
 (* validatePacket *)
@@ -65,8 +66,11 @@ Definition udp_client_step (e : env) (ue : uenv) (st : ustate) (ca cip : N) (pkt
           | inl (payload, dst, port) =>
               let s := u_next st in
               let a := {| as_sock := s; as_key := e_key (snd el); as_id := e_id (snd el) |} in
+              (* the association exists before the first write: a failing write is reported on it *)
               ({| u_cl := cl'; u_nat := u_nat st ++ [(ca, a)]; u_next := s + 1 |},
-               [UNew ca s (e_id (snd el)); USend s dst port payload; UReport s us_ok (zlen pkt) (zlen payload)])
+               if ue_sendable ue dst port
+               then [UNew ca s (e_id (snd el)); USend s dst port payload; UReport s us_ok (zlen pkt) (zlen payload)]
+               else [UNew ca s (e_id (snd el)); UReport s us_write (zlen pkt) 0])
           end
       end
   | Some a =>
@@ -76,7 +80,9 @@ Definition udp_client_step (e : env) (ue : uenv) (st : ustate) (ca cip : N) (pkt
           match validate_packet ue pt with
           | inr code => (st, [UReport (as_sock a) code (zlen pkt) 0])
           | inl (payload, dst, port) =>
-              (st, [USend (as_sock a) dst port payload; UReport (as_sock a) us_ok (zlen pkt) (zlen payload)])
+              (st, if ue_sendable ue dst port
+                   then [USend (as_sock a) dst port payload; UReport (as_sock a) us_ok (zlen pkt) (zlen payload)]
+                   else [UReport (as_sock a) us_write (zlen pkt) 0])
           end
       end
   end.
